@@ -708,3 +708,55 @@ Lemma path_area_green (els : list (PathEl R)) segs :
   segments els = Some segs ->
   path_area els = Some (sum_f (map (fun s => green_area (seg_eval s) 0 1) segs)).
 Proof. intros Hs. unfold path_area. rewrite Hs, segs_area_green. reflexivity. Qed.
+
+(** polygons: the shoelace formula *)
+Lemma polygon_area_from (a : Point R) : forall (mid : list (Point R)) last,
+  exists segs, segs_from (Some (a, last)) (map (@LineTo R) mid ++ [ClosePath]) = Some segs /\
+    segs_area segs = / 2 * shoelace_from a last mid.
+Proof.
+  induction mid as [|m mid IH]; intros last.
+  - cbn [map app segs_from seg_step el_end shoelace_from]. destruct (pt_neb last a) eqn:E.
+    + eexists. split; [reflexivity|]. rewrite segs_area_cons, segs_area_nil.
+      destruct a as [ax ay], last as [lx ly]. cbn [seg_signed_area]. crv_unfold. field.
+    + apply pt_neb_false in E. subst last. eexists. split; [reflexivity|]. rewrite segs_area_nil.
+      destruct a as [ax ay]. crv_unfold. field.
+  - cbn [map app segs_from seg_step el_end shoelace_from].
+    destruct (IH m) as [rest [-> Ha]]. eexists. split; [reflexivity|].
+    rewrite segs_area_cons, Ha. destruct last as [lx ly], m as [mx my]. cbn [seg_signed_area].
+    generalize (shoelace_from a {| px := mx; py := my |} mid). intro r. crv_unfold. field.
+Qed.
+
+Lemma polygon_area (a : Point R) (mid : list (Point R)) :
+  path_area (MoveTo a :: map (@LineTo R) mid ++ [ClosePath]) = Some (shoelace a mid).
+Proof.
+  unfold path_area, segments. cbn [segs_from seg_step el_end].
+  destruct (polygon_area_from a mid a) as [segs [-> Ha]]. f_equal. exact Ha.
+Qed.
+
+(** every path whose sub-paths are all terminated by [ClosePath] is a closed path *)
+Lemma close_terminated_from_closed : forall (els : list (PathEl R)) start last pc,
+  (pc = true -> last = start) -> close_terminated_from pc els -> closed_from (Some (start, last)) els.
+Proof.
+  induction els as [|e els IH]; intros start last pc Hpc Hw.
+  - cbn in Hw |- *. auto.
+  - cbn [close_terminated_from] in Hw. destruct Hw as [Hm Hw].
+    cbn [closed_from]. destruct e as [p|p|p1 p2|p1 p2 p3|]; cbn [seg_step el_end move_closes is_close] in *.
+    + split; [auto|]. apply (IH p p false); [discriminate | exact Hw].
+    + split; [exact I|]. apply (IH start p false); [discriminate | exact Hw].
+    + split; [exact I|]. apply (IH start p2 false); [discriminate | exact Hw].
+    + split; [exact I|]. apply (IH start p3 false); [discriminate | exact Hw].
+    + destruct (pt_neb last start) eqn:E; (split; [exact I|]).
+      * apply (IH start start true); [reflexivity | exact Hw].
+      * apply pt_neb_false in E. apply (IH start last true); [auto | exact Hw].
+Qed.
+
+Lemma close_terminated_closed (els : list (PathEl R)) : close_terminated els -> closed_path els.
+Proof.
+  unfold close_terminated, closed_path. destruct els as [|e els]; [intros _; exact I|].
+  destruct e as [p|p|p1 p2|p1 p2 p3|]; [| | | |contradiction];
+    cbn [close_terminated_from closed_from seg_step el_end move_closes is_close]; intros [_ Hw]; (split; [exact I|]).
+  - apply (close_terminated_from_closed els p p false); [discriminate | exact Hw].
+  - apply (close_terminated_from_closed els p p false); [discriminate | exact Hw].
+  - apply (close_terminated_from_closed els p2 p2 false); [discriminate | exact Hw].
+  - apply (close_terminated_from_closed els p3 p3 false); [discriminate | exact Hw].
+Qed.
